@@ -1,8 +1,15 @@
 package protocol
 
-import "fmt"
+import (
+	"fmt"
+	"sync"
+)
 
 var Connections map[string]*Monitor
+
+// connectionsMu guards Connections: tunnels register and unregister from their
+// own handler goroutines
+var connectionsMu sync.Mutex
 
 type Monitor struct {
 	Processor *Processor
@@ -14,6 +21,9 @@ const (
 )
 
 func RegisterTunnel(t *Tunnel, p *Processor) {
+	connectionsMu.Lock()
+	defer connectionsMu.Unlock()
+
 	if Connections == nil {
 		Connections = make(map[string]*Monitor)
 	}
@@ -25,10 +35,16 @@ func RegisterTunnel(t *Tunnel, p *Processor) {
 }
 
 func RemoveTunnel(t *Tunnel) {
+	connectionsMu.Lock()
+	defer connectionsMu.Unlock()
+
 	delete(Connections, t.Id)
 }
 
 func Disconnect(id string) error {
+	connectionsMu.Lock()
+	defer connectionsMu.Unlock()
+
 	if Connections == nil {
 		return fmt.Errorf("%s connection does not exist", id)
 	}
